@@ -55,6 +55,12 @@ func init() {
 	generators["C13"] = func(seed uint64, tier string) []*Scenario {
 		p := profile{maxFiles: 6, maxFaults: 2, orders: true, renames: true, fineNet: true, dirs: true,
 			faultKinds: []string{"cut_req_at", "cut_after_recorded", "drop_resp"}}
+		if seed%3 == 1 {
+			// source files changing or vanishing between the attempts to send a
+			// payload: the sender then takes parts out of a payload it has
+			// already encoded once
+			p.envChanges, p.maxFaults = 3, 4
+		}
 		sc := genW1("C13", seed, p)
 		sc.NetFinePct = []int{0, 30, 100, 100}[seed%4]
 		sc.Send.Compression = int(seed>>8) % 10
